@@ -518,3 +518,85 @@ func cutEverywhere(t *rapid.T, far bool) {
 		cl.done(long || fiveBytes)
 	}
 }
+
+// TestC08_ReceiverWithoutMapping: a receiver that was never given a mapping is offered, in turn, streams that must be
+// refused - a mapping block whose parameters no mapping can have (base <= 1), a mapping block cut short, an undefined
+// mapping flag - and then a valid stream WITHOUT mapping: "a stream without mapping when none is supplied returns an
+// error", whatever was refused before; the receiver stays empty and usable, and finally accepts a stream with its mapping.
+func TestC08_ReceiverWithoutMapping(t *testing.T) {
+	rapid.Check(t, func(t *rapid.T) {
+		cl := newCase("C08")
+		cl.label("receiver-without-mapping")
+		spec, m := buildMapping(t, 1e-3, 0.3)
+		kind := gen.AnyKind().Draw(t, "kind")
+		var r *ddsketch.DDSketch
+		if rapid.Bool().Draw(t, "viadecode") {
+			var err error
+			if r, err = ddsketch.DecodeDDSketch([]byte{}, kind.Provider(), nil); err != nil {
+				// (an empty stream without mapping is refused too: start from the constructor then)
+				r = nil
+			}
+		}
+		if r == nil {
+			r = ddsketch.NewDDSketch(nil, kind.New(), kind.New())
+		}
+		src := ddsketch.NewDDSketch(m, kind.New(), kind.New())
+		n := rapid.IntRange(1, 6).Draw(t, "n")
+		for i := 0; i < n; i++ {
+			_ = src.Add(gen.ClampPos(m, rapid.SampledFrom([]float64{1, 2.5, 1000, 1e-3, 77}).Draw(t, "v")))
+		}
+		var noMap, withMap []byte
+		src.Encode(&noMap, true)
+		src.Encode(&withMap, false)
+		refusals := rapid.IntRange(0, 3).Draw(t, "refusals")
+		for i := 0; i < refusals; i++ {
+			var w refdec.Builder
+			what := ""
+			switch rapid.IntRange(0, 2).Draw(t, "badkind") {
+			case 0:
+				g := rapid.SampledFrom([]float64{1, 0.5, 0, -2, math.Copysign(0, -1), math.Nextafter(1, 0)}).Draw(t, "badgamma")
+				w.Mapping(byte(rapid.SampledFrom([]int{refdec.SubMapLog, refdec.SubMapLinear, refdec.SubMapCubic}).Draw(t, "sub")), g, rapid.Float64Range(-5, 5).Draw(t, "off"))
+				what = fmt.Sprintf("a mapping block with base %v", g)
+				cl.label("refused:impossible-base")
+			case 1:
+				w.Mapping(refdec.SubMapLog, 1.02, 0)
+				w.B = w.B[:rapid.IntRange(1, len(w.B)-1).Draw(t, "cutat")]
+				what = "a mapping block cut short"
+			default:
+				w.Mapping(byte(rapid.SampledFrom([]int{5, 6, 7, 9}).Draw(t, "undef")), 1.02, 0)
+				what = "an undefined mapping flag"
+			}
+			if what != "a mapping block cut short" && rapid.Bool().Draw(t, "binsafter") {
+				w.B = append(w.B, noMap...) // (after a block cut short, more bytes would complete it)
+			}
+			cl.logf("refused stream: %s (% x)", what, w.B)
+			func() {
+				defer func() {
+					if p := recover(); p != nil {
+						t.Fatalf("C08 %s: decoding %s panicked: %v", spec, what, p)
+					}
+				}()
+				if err := r.DecodeAndMergeWith(w.B); err == nil {
+					t.Fatalf("C08 %s: %s was decoded without error", spec, what)
+				}
+			}()
+		}
+		func() {
+			defer func() {
+				if p := recover(); p != nil {
+					t.Fatalf("C08 %s: after %d refused streams, a stream without mapping (none supplied) made the receiver panic: %v", spec, refusals, p)
+				}
+			}()
+			if err := r.DecodeAndMergeWith(noMap); err == nil {
+				t.Fatalf("C08 %s (%s): after %d refused streams, a stream without mapping was decoded without error although the receiver was never given one (count %v)", spec, kind, refusals, r.GetCount())
+			}
+			// (what a refused stream leaves behind in the receiver - its bins, here without any mapping to read them
+			// with - is the partial absorption that no property speaks of: the receiver is not queried)
+		}()
+		fresh := ddsketch.NewDDSketch(nil, kind.New(), kind.New())
+		if err := fresh.DecodeAndMergeWith(withMap); err != nil || fresh.GetCount() != float64(n) {
+			t.Fatalf("C08 %s: a stream with its mapping, decoded into a new receiver without mapping: error %v, count %v (stream: %d)", spec, err, fresh.GetCount(), n)
+		}
+		cl.done(refusals > 0)
+	})
+}
